@@ -19,6 +19,7 @@ import (
 	"strconv"
 	"strings"
 	"syscall"
+	"unicode/utf8"
 
 	"verifharness/internal/hx"
 	"verifharness/internal/prng"
@@ -643,12 +644,12 @@ func main() {
 	s := hx.NewSink(fl, "From Coq Require Import List NArith.\nFrom GL Require Import model.Zip run.Run_C20.\nImport ListNotations.\n", "case")
 	fl.Out, _ = filepath.Abs(fl.Out)
 	run := func(c *Case) {
-		s.Add(c, runCase(c, s, fl), nontrivial(c))
+		s.Add(mapNames(c, encName), runCase(c, s, fl), nontrivial(c))
 	}
 	if fl.From != "" {
 		for _, c := range hx.ReadCases[Case](fl.From) {
 			c := c
-			run(&c)
+			run(mapNames(&c, decName))
 		}
 		s.Close("replayed cases", false)
 		os.RemoveAll(filepath.Join(fl.Out, "sb"))
@@ -695,6 +696,14 @@ func main() {
 		c.ID = id
 		run(c)
 	}
+	// directed: trees with file and folder names that are not valid UTF-8 (legacy encodings: Latin-1, Shift-JIS bytes)
+	for i := 0; i < 2; i++ {
+		c := genTree(prng.New(fl.Seed, "C20treelegacy", uint64(i)), false)
+		c.Items = append(c.Items, Item{P: "caf\xe9.txt", C: "12:7"}, Item{P: "d\xfcr/\x83\x65.bin", C: "40:8"}, Item{P: "d\xfcr/plain.txt", C: "3:9"})
+		id++
+		c.ID = id
+		run(c)
+	}
 	// directed: a tree with many small files (more than the descriptors the process may hold while it extracts them)
 	{
 		c := genTree(prng.New(fl.Seed, "C20treemany", 0), false)
@@ -712,4 +721,31 @@ func main() {
 		"unzipped into a pre-populated directory 1..4 levels below the snapshot root; lex: 100 (a,b) string pairs through filepath.Clean/Join/Rel. "+
 		"Compared: outcome class and the complete before/after content (path, kind, sha256 as id) of the snapshot directory. "+
 		"non-trivial = tree with >= 3 files and a sub-directory, archive with a special segment or >= 2 entries, >= 3 string pairs", false)
+}
+
+// names that are not valid UTF-8 do not survive JSON: in the case files they travel as NUL + "hex:" + hex digits
+func encName(t string) string {
+	if utf8.ValidString(t) {
+		return t
+	}
+	return "\x00hex:" + hex.EncodeToString([]byte(t))
+}
+
+func decName(t string) string {
+	if strings.HasPrefix(t, "\x00hex:") {
+		if b, err := hex.DecodeString(t[5:]); err == nil {
+			return string(b)
+		}
+	}
+	return t
+}
+
+func mapNames(c *Case, f func(string) string) *Case {
+	d := *c
+	d.Items = make([]Item, len(c.Items))
+	for i, it := range c.Items {
+		it.P = f(it.P)
+		d.Items[i] = it
+	}
+	return &d
 }
